@@ -120,7 +120,8 @@ def run(rep: Report, tier: str) -> None:
                 tail = match.events[first:]
                 conds = [x[1] if x[2] else mk_not(x[1]) for x in tail if x[0] == "cond" and not _is_dispatch(bm, x[1])]
                 cond = mk_and(conds)
-                allow = ("fld", ("sym", "configuration"), "Configuration.__allow_negative_balances")
+                # what the public property configuration.allow_negative_balances evaluates to (C08.e decides that this is the -n flag as given)
+                allow = norm.eval(ast.parse("configuration.allow_negative_balances", mode="eval").body, norm.ctx_for(fi, subst_locals=False))[0]
                 zero = ("const", Decimal(0))
                 want = mk_and(
                     [
